@@ -10,7 +10,12 @@ exec 9>$T/lock; flock 9
 HEAD=$(git -C /repo rev-parse HEAD)
 if [ ! -d $T/repo ]; then git -C /repo worktree add --detach $T/repo $HEAD >/dev/null 2>&1 || { echo "cannot create trial worktree"; exit 2; }; fi
 git -C $T/repo checkout -q -- . ; git -C $T/repo checkout -q --detach $HEAD || exit 2
-if [ "${SYNC:-1}" = 1 ] || [ ! -d $T/verif ]; then
+if [ "${SYNC:-1}" = head ]; then
+  # the committed state of /verif (half-edited working files cannot break a background batch)
+  mkdir -p $T/verif.new && git -C /verif archive HEAD | tar -x -C $T/verif.new
+  rsync -a --delete --exclude target --exclude evidence --exclude replays $T/verif.new/ $T/verif/ && rm -rf $T/verif.new
+  sed -i 's#path = "/repo"#path = "/tmp/trial/repo"#' $T/verif/harness/Cargo.toml
+elif [ "${SYNC:-1}" = 1 ] || [ ! -d $T/verif ]; then
   mkdir -p $T/verif
   rsync -a --delete --exclude target --exclude evidence --exclude replays --exclude seeded --exclude findings --exclude .git /verif/ $T/verif/
   sed -i 's#path = "/repo"#path = "/tmp/trial/repo"#' $T/verif/harness/Cargo.toml
